@@ -91,7 +91,7 @@ for _n, _m in ((0, 1), (1, 1), (0, 2), (1, 2), (2, 1), (2, 2)):
       carriers=["carriers/cfg_free.c", "carriers/cfg_setopt_scalar.c"], harness="harness/store2.c",
       defs={"quick": ["-DNV=2", "-DSHAPE_N=%d" % _n, "-DSHAPE_M=%d" % _m]},
       label="bounded(old count %d, new count %d; failing element at every position; any allocation may fail; 6 literal flag words; cfg_setopt by contract)" % (_n, _m),
-      props=["C09", "C10", "C07", "C14", "C18", "C02"], cost=60)
+      props=["C09", "C10", "C07", "C14", "C18", "C04", "C02"], cost=60)
 U("setmulti_args", entry="h_setmulti_args", func="cfg_opt_setmulti", harness="harness/store2.c", defs={"quick": ["-DNV=2"]}, cbmc=unw(6),
   label="proof (loop-free paths: argument validation)", props=["C09", "C10", "C02"], cost=5, **CF)
 per_count("addlist", counts_quick=(0, 1), counts_thorough=(0, 1, 2), entry="h_addlist", func="cfg_addlist, cfg_addlist_internal", harness="harness/store2.c",
@@ -121,7 +121,7 @@ U("setopt_args", entry="h_setopt_args", func="cfg_setopt", harness="harness/seto
 SECC = dict(remove=["cfg_free", "cfg_dupopt_array", "cfg_init_defaults"], carriers=["carriers/cfg_free.c", "carriers/cfg_dupopt_array.c", "carriers/cfg_init_defaults.c"])
 SECTXT = "7 literal option flag words (MULTI/TITLE/NO_TITLE_DUPES/NOCASE/KEYSTRVAL/DEFINIT) x 2 context flag words; titles 1 byte over all bytes"
 per_count("setopt_sec", counts_quick=(0, 1, 2), counts_thorough=(0, 1, 2), entry="h_setopt_sec", func="cfg_setopt", harness="harness/sections.c",
-          cbmc=unw(8) + OOM, label="section arm; " + SECTXT + "; any allocation may fail", props=["C01", "C09", "C10", "C07", "C16", "C18", "C06", "C12", "C02"], cost=60, **SECC)
+          cbmc=unw(8) + OOM, label="section arm; " + SECTXT + "; any allocation may fail", props=["C01", "C09", "C10", "C07", "C16", "C18", "C06", "C12", "C19", "C02"], cost=60, **SECC)
 per_count("gettsec", counts_quick=(0, 1, 2), counts_thorough=(0, 1, 2, 3), entry="h_gettsec", func="cfg_opt_gettsecidx, cfg_opt_gettsec", harness="harness/sections.c",
           cbmc=unw(8), label=SECTXT, props=["C09", "C11", "C02"], cost=20, **SECC)
 per_count("rmnsec", counts_quick=(0, 1, 2), counts_thorough=(0, 1, 2, 3), entry="h_rmnsec", func="cfg_opt_rmnsec", harness="harness/sections.c",
@@ -134,7 +134,7 @@ PARSEC = dict(remove=["cfg_getopt", "cfg_setopt", "cfg_addopt", "cfg_addval", "c
               carriers=["carriers/parse_carriers.c"], harness="harness/parse_step.c", func="cfg_parse_internal")
 U("parse_step", entry="h_parse_step", cbmc=unw(6) + NOOOM + LEAK, defs={"quick": []}, replay="replay/parse_step.c",
   label="proof* (hand-applied invariant rule, DESIGN 5.C01: any state, any token, any flags/verdicts; strings <= 2 bytes only for the copied token text)",
-  props=["C01", "C06", "C07", "C12", "C14", "C15", "C18", "C02", "C13", "C17"], cost=60, **PARSEC)
+  props=["C01", "C06", "C07", "C12", "C14", "C15", "C18", "C02", "C13", "C17", "C04", "C05"], cost=60, **PARSEC)
 U("parse_step_args", entry="h_parse_step", cbmc=unw(6) + NOOOM + LEAK, defs={"quick": ["-DCFGV_STEP_ARGS_LEAK_CASE"]},
   label="proof* (same step, restricted to states 8/9 with collected call arguments: finding unit)",
   props=["C07", "C14"], cost=30, **PARSEC)
@@ -149,7 +149,7 @@ U("lex_dfa", tu="lexer", harness="harness/lex_dfa.c", entry="h_lex_dfa", func="f
 LEXTRUST = ["flex driver loop (longest match, back-up) and buffer management", "sscanf(%o/%x), getenv, isspace (C locale): assumed contracts (carriers in harness/lex_common.h)",
             "extraction of the rule actions from the generated switch (extract/extract_actions.py, must-fire checks)"]
 for _nm, _props in (("act_top", ["C03", "C02", "C06", "C08", "C15"]), ("act_dq", ["C03", "C02", "C06", "C08", "C05"]), ("act_sq", ["C03", "C02", "C06", "C08", "C05"]),
-                    ("act_env", ["C03", "C02", "C06"]), ("act_linecomment", ["C15", "C03", "C02", "C06"]), ("act_ccomment", ["C15", "C03", "C02", "C06", "C08"])):
+                    ("act_env", ["C03", "C02", "C06"]), ("act_linecomment", ["C15", "C03", "C02", "C06", "C05"]), ("act_ccomment", ["C15", "C03", "C02", "C06", "C08"])):
     for _sh in range(5):
         if _nm == "act_top" and _sh not in (0, 2):
             continue        # top-level forms do not accumulate: two shapes are enough
@@ -162,7 +162,7 @@ for _nm, _props in (("act_top", ["C03", "C02", "C06", "C08", "C15"]), ("act_dq",
 FLEXC = dict(remove=["cfg_yy_create_buffer", "cfg_yypush_buffer_state", "cfg_yypop_buffer_state"], carriers=["carriers/flex_buffers.c"])
 HLPTRUST = LEXTRUST + ["flex buffer stack: create/push/pop are a stack (carriers/flex_buffers.c)", "fopen/fclose/strerror: assumed contracts with a ghost open-set"]
 U("lex_scan_end", tu="lexer", harness="harness/lex_hlp.c", entry="h_scan_end", func="cfg_scan_fp_end", cbmc=unw(8) + NOOOM + LEAK, label="proof (loop-free; every context, 5 scratch shapes)",
-  props=["C08", "C07", "C13", "C02"], cost=10, trusted=HLPTRUST, **FLEXC)
+  props=["C08", "C07", "C13", "C03", "C02"], cost=10, trusted=HLPTRUST, **FLEXC)
 U("lex_scan_begin", tu="lexer", harness="harness/lex_hlp.c", entry="h_scan_begin", func="cfg_scan_fp_begin", cbmc=unw(8) + NOOOM, label="proof (loop-free)",
   props=["C08", "C13", "C02"], cost=5, trusted=HLPTRUST, **FLEXC)
 U("lex_include", tu="lexer", harness="harness/lex_hlp.c", entry="h_lexer_include", func="cfg_lexer_include", cbmc=unw(8) + NOOOM + LEAK,
@@ -200,18 +200,18 @@ for _combo in range(5):
                 if _pn == 5 and _ns == 0:
                     continue
                 U("%s_path_c%dk%dn%d" % (_kind, _combo, _ns, _pn), entry=_entry, func=_fn,
-                  defs={"quick": ["-DPATHN=%d" % _pn, "-DNSEC=%d" % _ns, "-DTREE_COMBO=%d" % _combo, "-DCFGV_FIXED_DUP=8"]}, cbmc=unw(_pn + 2) + NOOOM, tiers=_tiers, timeout=1800,
+                  defs={"quick": ["-DPATHN=%d" % _pn, "-DNSEC=%d" % _ns, "-DTREE_COMBO=%d" % _combo, "-DCFGV_FIXED_DUP=8"]}, cbmc=unw(_pn + 2) + NOOOM + LEAK, tiers=_tiers, timeout=1800,
                   label="bounded(path <= %d bytes over all bytes; tree root{a, s{b}}: %s with %d instance(s), titles 1 byte; no allocation failure; fixed-size string copies)" % (_pn, COMBOTXT[_combo], _ns),
-                  props=["C11", "C06", "C02"] if _kind == "getopt" else ["C11", "C02"], term_props=["C11", "C02"], cost=100 if _pn == 3 else 600, replay="replay/resolve.c", **RES)
+                  props=["C11", "C06", "C09", "C07", "C02"] if _kind == "getopt" else ["C11", "C09", "C07", "C02"], term_props=["C11", "C02"], cost=100 if _pn == 3 else 600, replay="replay/resolve.c", **RES)
 for _c in range(4):
     U("getopt_array_c%d" % _c, entry="h_getopt_array", func="cfg_getopt_array", defs={"quick": ["-DPATHN=3", "-DCFGV_FIXED_DUP=8", "-DGA_CASE=%d" % _c], "thorough": ["-DPATHN=4", "-DCFGV_FIXED_DUP=8", "-DGA_CASE=%d" % _c]},
       cbmc={"quick": unw(5) + NOOOM, "thorough": unw(6) + NOOOM},
       label="bounded(path <= 3 bytes quick / 4 thorough; recursion by contract on the extracted copy; %s section %s an instance)" % ("multi" if _c & 2 else "single", "with" if _c & 1 else "without"),
-      props=["C14", "C11", "C02"], term_props=["C11", "C02"], cost=200, **RES)
+      props=["C14", "C11", "C16", "C02"], term_props=["C11", "C02"], cost=200, **RES)
 for _kind, _entry in (("getopt", "h_getopt_path"), ("getsec", "h_getsec_path")):
     U("%s_deep_c0k1n5" % _kind, entry=_entry, func="cfg_getopt_secidx (three levels)", defs={"quick": ["-DPATHN=5", "-DNSEC=1", "-DTREE_COMBO=0", "-DTREE_DEEP", "-DCFGV_FIXED_DUP=8"]},
-      cbmc=unw(7) + NOOOM, timeout=1800, label="bounded(path <= 5 bytes over all bytes; three-level tree root{a, s{b, t{c}}}, single sections; no allocation failure)",
-      props=["C11", "C02"], term_props=["C11", "C02"], cost=900, replay="replay/resolve.c", **RES)
+      cbmc=unw(7) + NOOOM + LEAK, timeout=1800, label="bounded(path <= 5 bytes over all bytes; three-level tree root{a, s{b, t{c}}}, single sections; no allocation failure)",
+      props=["C11", "C09", "C07", "C02"], term_props=["C11", "C02"], cost=900, replay="replay/resolve.c", **RES)
 U("set_validate", entry="h_set_validate", func="cfg_set_validate_func, cfg_set_validate_func2", defs={"quick": ["-DPATHN=3", "-DCFGV_FIXED_DUP=8"]}, cbmc=unw(5) + NOOOM,
   remove=["cfg_getopt_array"], carriers=["carriers/cfg_getopt_array.c"], label="proof (loop-free; the schema resolver by contract)", props=["C14", "C02"], cost=10, **RES)
 U("getopt_array_leaf", entry="h_getopt_array_leaf", func="cfg_getopt_array (nested-call contract)", defs={"quick": ["-DPATHN=3", "-DCFGV_FIXED_DUP=8"]}, cbmc=unw(5) + NOOOM,
@@ -242,6 +242,8 @@ U("print_opt", entry="h_print_opt", func="cfg_opt_print_pff_indent, cfg_indent",
   trusted=PRTRUST, harness="harness/print.c")
 U("print_cfg", entry="h_print_cfg", func="cfg_print_pff_indent", cbmc=unw(68) + NOOOM, remove=["cfg_opt_print_pff_indent"], carriers=["carriers/print_carriers.c"],
   defs={"quick": ["-DCFGV_CARRY_PRINTOPT"]}, label="bounded(<= 3 options; every verdict of own / inherited filter; any depth)", props=["C19", "C02"], cost=20, trusted=PRTRUST, harness="harness/print.c")
+U("print_indent", entry="h_indent", func="cfg_indent", cbmc=unw(68) + NOOOM, label="bounded(depth 0..24)", props=["C19", "C05", "C02"], cost=10, trusted=PRTRUST,
+  carriers=["carriers/print_carriers.c"], **PRT)
 U("print_hooks", entry="h_print_hooks", func="cfg_opt_set_print_func, cfg_set_print_filter_func", cbmc=unw(68) + NOOOM, label="proof (loop-free)", props=["C19", "C02"], cost=5,
   carriers=["carriers/print_carriers.c"], **PRT)
 
